@@ -69,7 +69,9 @@ def array_data_frame_to_triangle(
             raise ValueError(
                 "At least two periods are required to infer period resolution."
             )
-        period_resolution = int(
+        # The lag between two period starts is only approximately integral (months have
+        # different lengths), so round instead of truncating: Apr-1 -> Jul-1 is 2.9989.
+        period_resolution = round(
             calculate_dev_lag(df["period"].iloc[0], df["period"].iloc[1])
         )
     if eval_resolution is None:
